@@ -134,6 +134,8 @@ type Cfg struct {
 	Sort           bool     `json:"sort"`
 	Separate       bool     `json:"separate"` // separate target package
 	ImportOverride bool     `json:"importoverride"`
+	// LegacyOverride: default_package_name is a full import path of another place, redirected to the struct package by an import_path_overrides entry keyed by that full path
+	LegacyOverride bool `json:"legacyoverride"`
 	DottedImport   bool     `json:"dottedimport"` // the struct package lives at an import path whose last element has a dot (types.v1)
 	// CapsImport: the import path of the struct package contains capital letters (github.com/Acme/...): its last element is
 	// spelled RootLeafMidOuterInnerTypes
